@@ -17,8 +17,10 @@ import (
 
 // A 323-byte self-issued Ed25519 certificate (validly signed) whose only
 // extension is certificatePolicies = { policy 2.23.140.1.2.1, qualifiers:
-//   userNotice { explicitText "explicit text" },                      <- no noticeRef
-//   userNotice { noticeRef {"org",[1,2]}, explicitText "explicit text" } } <- noticeRef
+//
+//	userNotice { explicitText "explicit text" },                      <- no noticeRef
+//	userNotice { noticeRef {"org",[1,2]}, explicitText "explicit text" } } <- noticeRef
+//
 // (the field model's alternative policies=notices-tb).
 const certTB = "3082013f3081f2a00302010202020102300506032b657030173115301306035504030c0c7867656e207375626a656374301e170d3236303131343132303030305a170d3236303131363132303030305a30173115301306035504030c0c7867656e207375626a656374302a300506032b657003210011794f28e64aaaa3b6c75431d6f928d736b1c808a57e8eabf08c48607597f6f7a3623060305e0603551d20045730553053060667810c0102013049301b06082b06010505070202300f0c0d6578706c696369742074657874302a06082b06010505070202301e300d0c036f726730060201010201020c0d6578706c696369742074657874300506032b6570034100fd73a82ac8e1b17c466b40b737be9f241f3ab174c4b5bbe17f1396ed2c045bcca98d2441c8467271107ec72416d4d97fb37a4a87590fa22f0c68f32f85452e0e"
 
